@@ -1,5 +1,6 @@
 SPECIFICATION Spec14
 CONSTANTS
+  Only = "all"
   AllSubsetsUpTo = 4
   Big = FALSE
   Quick = TRUE
